@@ -47,6 +47,8 @@ func runC16(c *Ctx) {
 	checkPlanOptsForwarded(c, "R16g")
 	c.Rule("R16h", ruleTextCloneQualifier, 2)
 	checkCloneQualifier(c, "R16h")
+	c.Rule("R16j", ruleTextOptsForwarded, 2)
+	checkOptsForwarded(c, "R16j")
 	c.Rule("R16i", ruleTextScopeCoversKinds, 2)
 	checkScopeCoversKinds(c, "R16i")
 
